@@ -224,6 +224,46 @@ async def run_items(case):
             if not (got and got[0][0] == "StatusCodeError"):
                 viol.append({"key": "mismatched-inner-line-not-rejected", "msg": f"reply {bad!r}: decoded {got!r}",
                              "replay_case": dict(case, items=[item], masks=None, cmdlines=[], loops=0)})
+    # the reply writer of a session: whatever it has written completely is what the client decodes, in that order - also when a
+    # reply in between cannot be encoded (a name from the file system outside the control connection's encoding)
+    for wplan in case.get("writers", []):
+        enc, replies = wplan["encoding"], wplan["replies"]
+        srv = aioftp.Server(encoding=enc)
+        sink = Sink()
+        done_calls = []
+        orig_wr = srv.write_response
+
+        async def recording(stream, code, lines="", list=False, _orig=orig_wr):
+            await _orig(stream, code, lines, list)
+            done_calls.append((code, [lines] if isinstance(lines, str) else [*lines], bool(list)))
+        srv.write_response = recording
+        q = asyncio.Queue()
+        for code, lines, mode in replies:
+            q.put_nowait((code, lines if len(lines) != 1 else lines[0], mode))
+        wt = asyncio.ensure_future(srv.response_writer(sink, q))
+        for _ in range(200):
+            await asyncio.sleep(0)
+            if wt.done() or q.empty():
+                break
+        for _ in range(20):
+            await asyncio.sleep(0)
+        if not wt.done():
+            wt.cancel()
+        try:
+            await wt
+        except BaseException:
+            pass
+        got = await decode_segments(bytes(sink.data), (), enc, len(done_calls) + 1)
+        mon["writer_emitted_vs_decoded"] = mon.get("writer_emitted_vs_decoded", 0) + 1
+        for i, (code, lines, mode) in enumerate(done_calls):
+            exp = expected_info(code, lines, mode)
+            if not (i < len(got) and got[i][0] == code and rstrip_all(got[i][1]) == exp):
+                viol.append({"key": "written-reply-not-decoded",
+                             "msg": f"{enc} reply writer given {replies!r}: wrote {bytes(sink.data)!r}; write_response completed for "
+                                    f"{done_calls!r}, the client decodes {got!r}",
+                             "replay_case": dict(case, items=[], masks=None, cmdlines=[], loops=0, writers=[wplan])})
+                break
+        sigs.add(sig_of(["writer", wplan]))
     # Code.matches / check_codes
     if case.get("masks"):
         alphabet = "0123456789x* "
@@ -359,6 +399,14 @@ def gen_cases(tier, seed):
     verbs = ["PWD", "cwd", "CwD", "MKD", "STOR", "PASS", "RNFR", "X"]
     args = [None, "", "a", " lead", "two  blanks", "trail ", "ünï/ß", "a b c", "-x", "\"q\"", "x" * 200, "tab\tin"]
     cmdlines = [[v, a] for v in verbs for a in args]
+    writers = []
+    for enc, badch in (("latin-1", "\u20acuro"), ("latin-1", "\u044e"), ("ascii", "caf\u00e9"), ("utf-8", "lone\udc80surrogate")):
+        for pos in (0, 1, 2):
+            for mode in (False, True):
+                L = ["start", "middle", "end"]
+                L[pos] = badch
+                writers.append({"encoding": enc, "replies": [["220", ["hi"], False], ["250", L, mode], ["257", ["\"/\""], False], ["200", ["ok"], False]]})
+        writers.append({"encoding": enc, "replies": [["220", ["hi"], False], ["257", [badch], False], ["200", ["ok"], False]]})
     cases = []
     per = 40
     chunks = [items[i:i + per] for i in range(0, len(items), per)]
@@ -368,5 +416,6 @@ def gen_cases(tier, seed):
                       "items": chunks[i] if i < len(chunks) else [],
                       "masks": mchunks[i] if i < len(mchunks) else None,
                       "loops": 60 if tier == "quick" else 1200,
-                      "cmdlines": cmdlines[i::max(len(chunks), len(mchunks))]})
+                      "cmdlines": cmdlines[i::max(len(chunks), len(mchunks))],
+                      "writers": writers if i == 0 else []})
     return cases
